@@ -62,7 +62,7 @@ theorem Inv.resumeOf {s : State} (hI : Inv s) {a : Actor} {n : Nat} {p : Pc} (hp
   have hbd := resumeOf_bad s n hwait.1
   have hI' := hI
   obtain ⟨kindC, kindF, lockOk, frWait, freshOk, freshUniq, freshVer, freshVerT, freshNode, wFreeTaken, preOk, postOk, ownOk, rsmTaken,
-    freeTaken, pubNode, waiting, parked, listOk, scanOk, prevOk, placed, oScanOk, oNoneOk, aUnlockOk, aNextOk, aResumeOk, aFreeOk,
+    freeTaken, pubNode, waiting, parked, listOk, scanOk, prevOk, placed, freshHolder, scanL0, unlockL0, oScanOk, oNoneOk, aUnlockOk, aNextOk, aResumeOk, aFreeOk,
     noRead, cTakeOk, cRemoveOk, allocUsed, noBad⟩ := hI
   obtain ⟨hs1, hs2, hs3, hs4, hs5, hs6, hs7, hs8, hs9⟩ := hshape
   constructor
@@ -103,6 +103,9 @@ theorem Inv.resumeOf {s : State} (hI : Inv s) {a : Actor} {n : Nat} {p : Pc} (hp
     · simp only [setPc_box, resumeOf_box, setPc_pc, resumeOf_pc, setPc_lock, resumeOf_lock]; grind [upd, updA, Pc.pend, Pc.locks]
     · simp only [setPc_box, resumeOf_box, setPc_pc, resumeOf_pc]; grind [upd, updA, Pc.post, Pc.pre]
   case placed => simp only [setPc_pc, resumeOf_pc, setPc_box, resumeOf_box, setPc_node, resumeOf_node, setPc_glist, resumeOf_glist, setPc_lock, resumeOf_lock]; inv_grind
+  case freshHolder => simp only [setPc_pc, resumeOf_pc, setPc_box, resumeOf_box]; inv_grind
+  case scanL0 => simp only [setPc_pc, resumeOf_pc]; inv_grind
+  case unlockL0 => simp only [setPc_pc, resumeOf_pc]; inv_grind
   case oScanOk => simp only [setPc_pc, resumeOf_pc, setPc_hnext, resumeOf_hnext, setPc_glist, resumeOf_glist]; inv_grind
   case oNoneOk => simp only [setPc_pc, resumeOf_pc, setPc_hnext, resumeOf_hnext, setPc_glist, resumeOf_glist]; inv_grind
   case aUnlockOk => simp only [setPc_pc, resumeOf_pc, setPc_node, resumeOf_node, setPc_glist, resumeOf_glist]; inv_grind
